@@ -70,3 +70,30 @@ Theorem C12_periodic_tsm_real_equals_full : forall d k L s src tgt,
   st_eq (run L (map_real (periodic_run_tsm d k s src tgt)) st0) (run L (execute_tsm d true s 63 src tgt) st0).
 Proof. exact periodic_tsm_real_equals_full. Qed.
 Print Assumptions C12_periodic_tsm_real_equals_full.
+
+(* ---- the periodic top tree (TbfAlgorithmPeriodicTopTree / ...Tsm :: execute(flags)), compared with the C++ per flag mask ---- *)
+From Tbfmm Require Import Exec.ExecTsmDefs Exec.ExecPeriodicDefs Spec.TopFlags.
+
+Theorem C12_top_single_flag_only : forall d k flags t c, In c (top_execute d k flags t) -> has flags (tcall_op c) = true.
+Proof. exact top_single_flag_only. Qed.
+Print Assumptions C12_top_single_flag_only.
+
+Theorem C12_top_single_flag_only_tsm : forall d k flags src tgt c, In c (top_execute_tsm d k flags src tgt) -> has flags (tcall_op c) = true.
+Proof. exact top_single_flag_only_tsm. Qed.
+Print Assumptions C12_top_single_flag_only_tsm.
+
+(* P2M, L2P and P2P (alone or together) trigger nothing on the top tree *)
+Theorem C12_top_leaf_flags_nothing : forall d k flags t,
+  has flags F_M2M = false -> has flags F_M2L = false -> has flags F_L2L = false -> top_execute d k flags t = nil.
+Proof. exact top_leaf_flags_nothing. Qed.
+Print Assumptions C12_top_leaf_flags_nothing.
+
+Theorem C12_top_staged_equals_full : forall d k t,
+  top_execute d k F_M2M t ++ top_execute d k F_M2L t ++ top_execute d k F_L2L t = top_execute d k 63 t.
+Proof. exact top_staged_equals_full. Qed.
+Print Assumptions C12_top_staged_equals_full.
+
+Theorem C12_top_staged_equals_full_tsm : forall d k src tgt,
+  top_execute_tsm d k F_M2M src tgt ++ top_execute_tsm d k F_M2L src tgt ++ top_execute_tsm d k F_L2L src tgt = top_execute_tsm d k 63 src tgt.
+Proof. exact top_staged_equals_full_tsm. Qed.
+Print Assumptions C12_top_staged_equals_full_tsm.
